@@ -56,6 +56,9 @@ type Input struct {
 	Items  []Item   `json:"items,omitempty"`  // list items and the marker text each must get exactly once
 	Feat   []string `json:"feat,omitempty"`   // features the generator used (evidence counters)
 	Mode   string   `json:"mode,omitempty"`   // generator family
+	// page-based generated content (pagecount.go)
+	Generated     []GenContent `json:"generated,omitempty"`      // ::before / ::after contents, each laid out exactly once
+	MarginCounter []GenPart    `json:"margin_counter,omitempty"` // content of a page-margin box of every page
 }
 
 func init() {
@@ -63,6 +66,7 @@ func init() {
 		ID: "C02",
 		Rule: "inputs: generated HTML documents (Ahem / WeasyPrint test font, pango engine and 5 % go-text) whose words are unique tokens, with the generator-side expected character sequence of every flow, marker text of every list item, and multiplicity rule of every repeated box; " +
 			"families: paged (page content box 1-40 lines high, 3-60 em wide: paragraphs, nested blocks, lists, tables with split cells, inline boxes, inline-blocks, forced/avoided breaks, orphans/widows, box-decoration-break, bounded floats / absolute boxes / fixed boxes / header groups / running elements) and tall (floats, absolute boxes, tables with header and footer groups anywhere; pages separated by forced breaks only); " +
+			"16 % of the documents of both families hold ::before / ::after content with page-based counters (counter(page), counter(pages), target-counter(<string | url | attr(href)>, page) to targets before and after the reference; six counter styles; on inline elements, paragraphs and list items), whose provisional text of the first pagination pass is replaced and whose pages are made again (counters docs_repaginated, pages_revisited, generated_width_changed), one third of them with a `page / pages` page-margin box; " +
 			"a case is non-trivial when the document was laid out on >= 2 pages and at least one flow has text on more than one page (a fragmentation really happened), " +
 			"or when it is a single-page document with at least one sub-flow (float / absolutely positioned / table cell) or a block broken into several lines; distinct = distinct input.",
 		N:     numCases,
@@ -81,7 +85,9 @@ func init() {
 			"DrawText calls are matched to TextBoxes by page, text (white space ignored) and origin (PositionX, PositionY+Baseline); with the go-text engine webrender emits empty DrawText calls, so only their number per page is compared",
 			"header / footer groups: CSS lets the user agent repeat them or not; required: complete wherever laid out, at most once per page fragment of their table, at least once overall; once on every fragment only where no space constraint exists (tall documents)",
 			"a render that panics or stalls is C01's verdict: inconclusive here (go-text: skipped)",
-			"excluded by construction: text-transform, hyphens, soft hyphens, text-overflow, block-ellipsis, max-lines, continue, generated content other than list markers, ::first-letter, bidi, columns, flex, grid, footnotes, explicit block sizes of boxes with content; and the feature combinations of the open findings (notes/C02.md): out-of-flow boxes that can reach a page bottom or hold a forced break, floats inside inline boxes, fixed / running boxes in content that can be pushed to the next page, header groups that may never fit, empty first row group, preserved white space with go-text",
+			"generated content (::before / ::after with page-based counters): the text of every declared pseudo-element, all pages in order, must be exactly one occurrence of its content list - literal parts verbatim, every counter part a representation of some non-negative integer in its counter style; the value itself (number of pages, page of the box, page of the target's first box) is required in page-margin boxes and only reported for flow content (a counter whose width decides its own page has no stable value; webrender resolves each counter once); element text of such documents obeys the same conservation rules as everywhere",
+			"more calls of the page-loop hook than laid-out pages (wr.PageLoopIterations) is taken as evidence of a second pagination pass",
+			"excluded by construction: text-transform, hyphens, soft hyphens, text-overflow, block-ellipsis, max-lines, continue, generated content other than list markers and page-based counters with literal strings (no counter() of element counters, target-text, quotes, attr()), bidi, columns, flex, grid, footnotes, explicit block sizes of boxes with content; and the feature combinations of the open findings (notes/C02.md): out-of-flow boxes that can reach a page bottom or hold a forced break, floats inside inline boxes, fixed / running boxes in content that can be pushed to the next page, running elements in documents that are paginated twice, header groups that may never fit, ::first-letter (always loses the letter; its boxes are read as element text when present)",
 		},
 		Batch: 50,
 	})
@@ -118,6 +124,9 @@ func Check(raw json.RawMessage) fw.Result {
 		res.Count("render_failed_pango", 1)
 		return res
 	}
+	// calls of the page-loop hook of this render (workers evaluate one case at a time): more calls
+	// than pages means that a second pagination pass took place
+	loopIterations := wr.PageLoopIterations
 	var pages []*bo.PageBox
 	for _, p := range rd.Document.Pages {
 		pages = append(pages, p.VerifPageBox())
@@ -140,6 +149,10 @@ func Check(raw json.RawMessage) fw.Result {
 	}
 	od := observePages(pages, flowRoots, hidden)
 	res.Count("pages", int64(od.pages))
+	if loopIterations > od.pages {
+		res.Count("docs_repaginated", 1)
+		res.Count("pages_revisited", int64(loopIterations-od.pages))
+	}
 	res.Count("textboxes", int64(len(od.texts)))
 	res.Count("engine_"+engine, 1)
 	for _, f := range in.Feat {
@@ -166,12 +179,26 @@ func Check(raw json.RawMessage) fw.Result {
 		return o
 	}
 	markers := map[string][]obsText{}
+	declared := map[string]bool{} // owner + "::" + pseudo of the declared generated contents
+	for _, gc := range in.Generated {
+		declared[gc.Owner+"::"+gc.Pseudo] = true
+	}
+	generated := map[string][]obsText{}
+	marginText := map[int]string{}
 	for _, t := range od.texts {
 		if t.pseudo == "marker" {
 			markers[t.owner] = append(markers[t.owner], t)
 			continue
 		}
+		if k := t.owner + "::" + t.pseudo; t.pseudo != "" && !t.margin && declared[k] {
+			generated[k] = append(generated[k], t)
+			continue
+		}
 		s := stripWS(t.text)
+		if t.margin && t.pseudo == "" && t.flow == "" && len(in.MarginCounter) > 0 {
+			marginText[t.page] += s
+			continue
+		}
 		if fl := flowByID[t.flow]; t.margin && t.pseudo == "" && fl != nil && fl.Kind == "running" {
 			o := get(t.flow)
 			mb := o.margin[t.page]
@@ -182,7 +209,10 @@ func Check(raw json.RawMessage) fw.Result {
 			mb.WriteString(s)
 			continue
 		}
-		if t.margin || t.pseudo != "" {
+		// the box of ::first-letter holds characters of the element's own text: they belong to its flow
+		if t.pseudo == "first-letter" && !t.margin {
+			res.Count("first_letter_boxes", 1)
+		} else if t.margin || t.pseudo != "" {
 			if s != "" {
 				res.Fail("unexpected-text", fmt.Sprintf("page %d: text %q laid out in a %s box although the document has no such content", t.page+1, t.text, map[bool]string{true: "page-margin", false: "::" + t.pseudo}[t.margin]))
 			}
@@ -373,6 +403,11 @@ func Check(raw json.RawMessage) fw.Result {
 				}
 			}
 		}
+	}
+
+	// ---------- page-based generated content ----------
+	if len(in.Generated) > 0 || len(in.MarginCounter) > 0 {
+		checkGenerated(&res, &in, od, generated, marginText)
 	}
 
 	// ---------- list markers: the marker text exactly once per list item ----------
